@@ -57,6 +57,33 @@ def gen(rng, tier):
             rng.shuffle(o2)
             orders.append(sub)
             orders.append(o2)
+        # interleavings of whole tasks: each task's messages in emission order, tasks merged at random,
+        # some tasks left incomplete (their tail cut): one task completes while older ones are still open,
+        # new ones start afterwards, several are still open at the end of the stream
+        tasks = {}
+        for j in ids:
+            tasks.setdefault(msgs[j]["u"], []).append(j)
+        if len(tasks) >= 2:
+            for _ in range(3):
+                seqs = []
+                for u, js in tasks.items():
+                    js = list(js)
+                    if rng.random() < 0.5 and len(js) > 1:
+                        js = js[:rng.randrange(1, len(js))]
+                    seqs.append(js)
+                # staggered starts: a later task may begin only after an earlier one progressed
+                merged = []
+                live = [seqs.pop(0)]
+                while live or seqs:
+                    if seqs and (not live or rng.random() < 0.3):
+                        live.append(seqs.pop(0))
+                    k = rng.randrange(len(live))
+                    burst = rng.choice([1, 1, 2, 100])
+                    for _ in range(burst):
+                        if live[k]:
+                            merged.append(live[k].pop(0))
+                    live = [x for x in live if x]
+                orders.append(merged)
         cases.append({"msgs": msgs, "orders": orders})
     return cases
 
